@@ -1,6 +1,6 @@
 import StrandModel.Props.C12
-import StrandModel.Props.C01
-import StrandModel.Props.C03
+import StrandModel.Props.C01Core
+import StrandModel.Props.C03Core
 /-
 The "also after serialization" corollaries of C01 (ElGamal round trip), C05 (honest proofs verify)
 and C03 (honest shuffles verify), for the multiplicative back-ends `natOps P fl`: every value the
